@@ -7,6 +7,6 @@ CONSTANTS
   AllAmounts = FALSE
   BUG_Mask = FALSE
   MaxHist = 40
-INVARIANTS TypeOK
+INVARIANTS TypeOK Ring Agree
 CONSTRAINT EmitLeaf
 CHECK_DEADLOCK FALSE
